@@ -3,7 +3,7 @@
 use proptest::prelude::*;
 
 use crate::build::build;
-use crate::gen::{sms_inner, GenCfg};
+use crate::gen::{normalize, sms_inner, GenCfg};
 use crate::model::lookup::*;
 use crate::observe::{attr_from_map, guard, opts, positions, root_join, Attr};
 use crate::props::common::TreeCase;
@@ -14,7 +14,8 @@ pub struct C09;
 
 fn strategy() -> BoxedStrategy<TreeCase> {
   let cfg = GenCfg { max_tokens: 12, ..GenCfg::positional() };
-  sms_inner(cfg).prop_map(|spec| TreeCase { spec }).boxed()
+  // normalize: a file name shared by the outer and the inner map stays shared only for identical content
+  sms_inner(cfg).prop_map(move |spec| TreeCase { spec: normalize(spec, cfg) }).boxed()
 }
 
 fn strip(a: &crate::observe::AttrFull) -> Attr {
@@ -28,7 +29,7 @@ impl Prop for C09 {
     "SourceMapSource with inner map from gen::sms_inner: ASCII generated text with a consistent outer map over 1-3 \
      sources one of which is the inner source name, outer original positions mostly inside (sometimes beside) the \
      original text, a consistent inner map over the original text (1-3 sources, names, optional sourceRoot), \
-     original_source given or taken from the outer sourcesContent, remove_original_source, both column settings; \
+     now and then a file of the inner map carries the name of a file the outer map passes through (identical content), original_source given or taken from the outer sourcesContent, remove_original_source, both column settings; \
      map() is compared per byte with a reference composition over the generated segment lists. Non-trivial: \
      >=1 byte resolved through a mapped inner chunk and >=1 through the fallback or pass-through; distinct by hash \
      of the case JSON".into()
@@ -175,7 +176,11 @@ impl Prop for C09 {
         .class(used_other, "byte resolved through fallback / pass-through")
         .class(*remove, "remove_original_source")
         .class(original.is_none(), "original source taken from outer sourcesContent")
-        .class(inner.root.as_deref().is_some_and(|r| !r.is_empty()), "inner sourceRoot"),
+        .class(inner.root.as_deref().is_some_and(|r| !r.is_empty()), "inner sourceRoot")
+        .class(
+          inner.sources.iter().any(|i| outer.sources.iter().any(|o| o != gname && root_join(inner.root.as_deref(), i) == *o)),
+          "a file of the inner map has the name of a file the outer map passes through",
+        ),
     )
   }
 }
